@@ -18,7 +18,7 @@
     writeExt                     `file.seek(cursor); file.write_all(payload)` (a write past EOF zero-fills the gap)
     validateBounds               frame.rs validate_frame_bounds (offsets RELATIVE to the data start
                                  `wal_offset + wal_size`, so "payload overlaps wal region" cannot occur)
-    readPayload                  frame.rs read_frame_payload_bytes
+    readPayload                  frame.rs read_frame_payload_bytes (with the checksum comparison on every read)
     ownCanonical                 frame.rs frame_canonical_bytes (frame without manifest) = the per-child body of
                                  document_chunk_payloads
     children / chunkLe           frame.rs document_chunk_frames (+ the sort key `(chunk_index, id)`)
@@ -71,6 +71,7 @@ inductive Err where
   | canonLen      -- "canonical length mismatch"
   | noChildren    -- "document chunk manifest missing children"
   | manifestLen   -- "chunk manifest length mismatch"
+  | checksum      -- "Checksum mismatch while validating frame payload"
   | orphan        -- outside the model: a chunk whose parent sequence is not in this batch
 deriving DecidableEq, Repr, Inhabited
 
@@ -169,15 +170,17 @@ def validateBounds (s : Store) (f : Frame) : Option Err :=
   else if f.off + f.len > s.file.length then some .pastFile
   else none
 
-/-- `read_frame_payload_bytes` -/
-def readPayload (s : Store) (f : Frame) : Except Err Bytes :=
+/-- `read_frame_payload_bytes`: bounds, read, then the stored bytes are compared with `frame.checksum` -/
+def readPayload (H : Bytes → Bytes) (s : Store) (f : Frame) : Except Err Bytes :=
   match validateBounds s f with
   | some e => .error e
-  | none => .ok (slice s.file f.off f.len)
+  | none =>
+    let raw := slice s.file f.off f.len
+    if !raw.isEmpty && H raw != f.checksum then .error .checksum else .ok raw
 
 /-- read + decode + canonical-length check of ONE frame's own stored payload -/
-def ownCanonical (c : Codec) (s : Store) (f : Frame) : Except Err Bytes :=
-  match readPayload s f with
+def ownCanonical (c : Codec) (H : Bytes → Bytes) (s : Store) (f : Frame) : Except Err Bytes :=
+  match readPayload H s f with
   | .error e => .error e
   | .ok raw =>
     match decodeCanonical c raw f.enc with
@@ -206,49 +209,52 @@ def children (s : Store) (pid : Nat) : List Frame := sortBy chunkLe (s.frames.fi
 def isManifestDoc (f : Frame) : Bool := f.role == .document && f.manifest.isSome
 
 /-- the loop of `document_chunk_payloads`: first failing child wins -/
-def childPayloads (c : Codec) (s : Store) : List Frame → Except Err (List Bytes)
+def childPayloads (c : Codec) (H : Bytes → Bytes) (s : Store) : List Frame → Except Err (List Bytes)
   | [] => .ok []
   | ch :: rest =>
-    match ownCanonical c s ch with
+    match ownCanonical c H s ch with
     | .error e => .error e
     | .ok b =>
-      match childPayloads c s rest with
+      match childPayloads c H s rest with
       | .error e => .error e
       | .ok bs => .ok (b :: bs)
 
 /-- `frame_canonical_bytes` = `Memvid::frame_canonical_payload` -/
-def canonicalBytes (c : Codec) (s : Store) (f : Frame) : Except Err Bytes :=
+def canonicalBytes (c : Codec) (H : Bytes → Bytes) (s : Store) (f : Frame) : Except Err Bytes :=
   if isManifestDoc f then
     let kids := children s f.id
     if kids.isEmpty then .error .noChildren
     else if some kids.length ≠ f.manifest then .error .manifestLen
     else
-      match childPayloads c s kids with
+      match childPayloads c H s kids with
       | .error e => .error e
       | .ok bs => .ok bs.flatten
-  else ownCanonical c s f
+  else ownCanonical c H s f
 
-/-- `blob_reader` read to the end: a Plain frame is read straight from the file (no bounds
-    validation, clipped at EOF), a Zstd frame through `frame_canonical_bytes` -/
-def blobReader (c : Codec) (s : Store) (f : Frame) : Except Err Bytes :=
+/-- `blob_reader` read to the end: a Plain frame is read straight from the file (no bounds validation;
+    a non-empty payload is first streamed through the hasher and compared with the checksum — a short
+    read counts as a mismatch), a Zstd frame goes through `frame_canonical_bytes` -/
+def blobReader (c : Codec) (H : Bytes → Bytes) (s : Store) (f : Frame) : Except Err Bytes :=
   match f.enc with
-  | .plain => .ok (slice s.file f.off f.len)
-  | .zstd => canonicalBytes c s f
+  | .plain =>
+    let raw := slice s.file f.off f.len
+    if f.len > 0 && (raw.length != f.len || H raw != f.checksum) then .error .checksum else .ok raw
+  | .zstd => canonicalBytes c H s f
 
 def Except.toErr {α : Type} : Except Err α → Option Err
   | .ok _ => none
   | .error e => some e
 
 /-- `frame_content(frame)`: `none` = Ok(text), `some e` = the error it returns -/
-def frameContentErr (c : Codec) (s : Store) (f : Frame) : Option Err :=
+def frameContentErr (c : Codec) (H : Bytes → Bytes) (s : Store) (f : Frame) : Option Err :=
   if f.search = some true then none
   else if f.len = 0 && f.manifest.isNone then none
   else
     -- frame_canonical_text
-    if isManifestDoc f then Except.toErr (canonicalBytes c s f)
+    if isManifestDoc f then Except.toErr (canonicalBytes c H s f)
     else if f.search.isSome then none
     else if f.mime = some false then none
-    else Except.toErr (canonicalBytes c s f)
+    else Except.toErr (canonicalBytes c H s f)
 
 /-! ## put_internal: the records of one put -/
 
@@ -329,8 +335,8 @@ def viewAfterWrite (early : Bool) (st : ApSt) (e : Entry) : Store :=
 
 /-- the index text of a record while it is applied: `search_text` when the record has one, else
     `frame_content(frame)?` — only when Tantivy is attached; `none` = no error -/
-def indexTextErr (c : Codec) (view : Store) (engine : Bool) (e : Entry) (frame : Frame) : Option Err :=
-  if engine && e.search.isNone then frameContentErr c view frame else none
+def indexTextErr (c : Codec) (H : Bytes → Bytes) (view : Store) (engine : Bool) (e : Entry) (frame : Frame) : Option Err :=
+  if engine && e.search.isNone then frameContentErr c H view frame else none
 
 /-- one Insert record -/
 def applyInsert (c : Codec) (H : Bytes → Bytes) (early : Bool) (st : ApSt) (seq : Nat) (e : Entry) :
@@ -341,7 +347,7 @@ def applyInsert (c : Codec) (H : Bytes → Bytes) (early : Bool) (st : ApSt) (se
     let id := st.s.frames.length
     let frame := mkFrame H id st.cursor parent e
     let view := viewAfterWrite early st e
-    match indexTextErr c view st.s.engine e frame with
+    match indexTextErr c H view st.s.engine e frame with
     | some err => .error err
     | none =>
       .ok { s := { view with frames := st.s.frames ++ [frame] }
